@@ -70,9 +70,9 @@ MANIFEST = {
             "the Lean model, as declared-vs-built oracles only: custom observation-space component labels, shared-reward wiring INCLUDING "
             "whose reward each component yields (sentinel rewards), reward calculation order, agent settings the file leaves out = the "
             "schema defaults read off the source by ast; software right after loading: every kill-chain stage is the class's initial "
-            "member and the software states do not depend on the random generators (six generator states) - this is where the open "
-            "findings F-C20r7b-1/2 (a configured dos-bot executes its attack loop, random port-scan trial included, while the scenario "
-            "is loaded) are reported. Tie: Gen/Config.lean (site inventory; constants; system-software, firewall-ACL, frequency tables; "
+            "member and the software states do not depend on the random generators (six generator states) - this is what found "
+            "F-C20r7b-1/2 (a configured dos-bot executed its attack loop, random port-scan trial included, while the scenario was "
+            "loaded; fixed). Tie: Gen/Config.lean (site inventory; constants; system-software, firewall-ACL, frequency tables; "
             "assignment table and constructor chains of every software class; every key of the defaults section with the statement "
             "that applies it; the number of ACL rule loops per loader (what they read is translated, see above); "
             "wireless-router ports and sections; scheduler shape and freshness; no loader consumes its argument; install/uninstall "
